@@ -282,6 +282,7 @@ func init() {
 		return StructV{st.Const(0, 64), st.Const(0, 64), st.Const(0, 64), in.strConst("dev"), in.strConst("0.0.1-dev")}
 	}
 
+	n["time.initLocal"] = func(in *Interp, fr *frame, a []Value) Value { return nil }
 	intrinsics["verifPollContexts"] = func(in *Interp, fr *frame, a []Value) Value { in.ctxPollForeign(fr); return nil }
 	// verifWait yields to the other goroutines; false when none of them can run
 	intrinsics["verifWait"] = func(in *Interp, fr *frame, a []Value) Value {
